@@ -518,3 +518,31 @@ def inline_accessors(P, cls, e, depth=0):
                 return n
             return inline_accessors(P, cls, subst(ret, dict(zip(params, n.args))), depth + 1)
     return T().visit(_copy.deepcopy(e))
+
+
+def inline_class_factories(P, e):
+    """copy of e in which `K.make(a, b)` -- K a class of the package, make a classmethod whose body is a straight-line computation -- is replaced by
+    what it returns with cls := K and the parameters := the (call-free) arguments: `_WorkOrder.for_target(t, g, i)` is `_WorkOrder(t, g, ...)`"""
+    import copy as _copy
+
+    class T(ast.NodeTransformer):
+        def visit_Call(self, n):
+            self.generic_visit(n)
+            f = n.func
+            if not (isinstance(f, ast.Attribute) and isinstance(f.value, ast.Name) and P.has_cls(f.value.id)) or n.keywords:
+                return n
+            k = P.cls(f.value.id)
+            hit = P.lookup(k, f.attr)
+            if not hit or hit[1] != 'method':
+                return n
+            fn = hit[2]
+            if not any(isinstance(d, ast.Name) and d.id == 'classmethod' for d in fn.decorator_list):
+                return n
+            ret = simple_return(fn)
+            params = [a.arg for a in fn.args.args]
+            if ret is None or not params or len(params) - 1 != len(n.args) or any(isinstance(x, ast.Call) for a in n.args for x in ast.walk(a)):
+                return n
+            env = dict(zip(params[1:], n.args))
+            env[params[0]] = ast.Name(id=k.name, ctx=ast.Load())
+            return subst(ret, env)
+    return T().visit(_copy.deepcopy(e))
